@@ -83,7 +83,7 @@ Proof. intros Hwf Hl. eapply (tdepth_longest_rank r Hwf (S (rank r g))); eauto. 
 
 Lemma scan_no_panic r enum roots names :
   wf_b r = true -> contract r (walked roots) enum -> small r ->
-  forall m, scan r enum roots names = SPanic m -> m = P_FUEL.
+  forall m, scan r enum roots names <> SPanic m.
 Proof.
-  intros H1 H2 H3 m E. pose proof (scan_correct r enum roots names H1 H2 H3) as H. rewrite E in H. exact H.
+  intros H1 H2 H3 m E. destruct (scan_correct r enum roots names H1 H2 H3) as (evs & E' & _). rewrite E in E'. discriminate E'.
 Qed.
